@@ -9,11 +9,15 @@ pub mod lut_dump;
 pub mod c03;
 pub mod c05;
 pub mod c06;
+pub mod c11;
+pub mod c12;
 
 pub fn registry() -> Vec<&'static macros::Entry> {
     let mut v = Vec::new();
     v.extend(c03::registry());
     v.extend(c05::registry());
     v.extend(c06::registry());
+    v.extend(c11::registry());
+    v.extend(c12::registry());
     v
 }
